@@ -20,6 +20,8 @@ Import only after core.use_repo().
 import os
 import sys
 import threading
+
+import grpc
 from concurrent.futures import Future
 
 import core
@@ -189,6 +191,37 @@ class RpcFailure(Exception):
     """stands for grpc.RpcError (an Exception subclass)"""
 
 
+class NoArgsRpc(grpc.RpcError):
+    """an RpcError raised without arguments"""
+
+
+class BadStr(Exception):
+    """an exception that cannot be rendered"""
+
+    def __str__(self):
+        raise ValueError('no text for this error')
+
+    __repr__ = __str__
+
+
+def poll_failure(how):
+    """the exception a failing `stub.poll` raises (all are Exception subclasses)"""
+    if how == 'noargs':
+        return TimeoutError()
+    if how == 'keyerror':
+        return KeyError()
+    if how == 'rpc_noargs':
+        return NoArgsRpc()
+    if how == 'badstr':
+        return BadStr('x')
+    if how == 'oserror':
+        return ConnectionResetError(104, 'Connection reset by peer')
+    return RpcFailure('unavailable')
+
+
+FAIL_HOW = ['rpc', 'garbage', 'noargs', 'keyerror', 'rpc_noargs', 'badstr', 'oserror']
+
+
 class Interrupt(BaseException):
     """a BaseException that is not an Exception"""
 
@@ -205,16 +238,28 @@ def flatten(triggers):
             continue
         for a in t.actions:
             w = a.config.get('watches') or []
-            out.append([t.path, t.line, w[0] if w else 'id:' + str(a.id)])
+            if w:                       # every generated tracepoint carries its tag as its one watch; the extra
+                out.append([t.path, t.line, w[0]])      # span / log actions of the same tracepoint carry none
     return out
+
+
+def kind_args(d):
+    """tracepoint arguments for the kind of location: a line (default), a method by name (`method_name`), or the
+    enclosing function of the line (`span: method`) — the last two make a FunctionLocation (line -1)"""
+    args = dict(d.get('args') or {})
+    if d.get('kind') == 'method':
+        args['method_name'] = 'fn_' + str(d['line'])
+    elif d.get('kind') == 'function':
+        args['span'] = 'method'
+    if not d.get('interp', True):
+        args['stage'] = 'no_such_stage'
+    return args
 
 
 def make_response(op):
     tps = []
     for tp in op.get('tps', []):
-        args = dict(tp.get('args') or {})
-        if not tp.get('interp', True):
-            args['stage'] = 'no_such_stage'
+        args = kind_args(tp)
         metrics = [] if tp.get('conv', True) else [Metric(name='m', type=99)]
         tps.append(TracePointConfig(ID='id-' + tp['tag'], path=tp['path'], line_number=tp['line'], args=args,
                                     watches=[tp['tag']], metrics=metrics))
@@ -337,7 +382,7 @@ class SvcBench:
             elif op.get('how') == 'garbage':
                 self.channel.next = ('resp', None)
             else:
-                self.channel.next = ('raise', Interrupt('stop') if op.get('base') else RpcFailure('unavailable'))
+                self.channel.next = ('raise', Interrupt('stop') if op.get('base') else poll_failure(op.get('how')))
             n = len(self.channel.hashes)
             res = {}
             try:
@@ -347,9 +392,7 @@ class SvcBench:
             res['req_hash'] = self.channel.hashes[n] if len(self.channel.hashes) > n else '<no request>'
             return res
         if k == 'register':
-            args = dict(op.get('args') or {})
-            if not op.get('interp', True):
-                args['stage'] = 'no_such_stage'
+            args = kind_args(op)
             try:
                 reg = self.deep.register_tracepoint(op['path'], op['line'], args, [op['tag']])
             except BaseException as e:  # noqa: B902
